@@ -304,9 +304,19 @@ def run_case(case, ctx):
 		has_surrogate = any(0xD800 <= ord(ch) <= 0xDFFF for it in res.items for ch in it.input.label)
 		jpath = ctx.fresh_path('.json')
 		apath = ctx.fresh_path('.json')
+		# exporter objects are re-used for the whole life of the worker (a long-running service would do that), and every
+		# other case the destination already holds a longer, older export
+		jexp, cexp, aexp = ctx.cache.setdefault('c11_exporters', (JSONResultsExporter(), CSVResultsExporter(), ResultsArchiveWriter()))
+		import zlib
+		stale = zlib.crc32(json.dumps(case, sort_keys=True, default=str).encode('utf-8', 'surrogatepass')) % 2 == 0   # a function of the case: replayable
+		if stale:
+			for pth in (jpath, apath):
+				with open(pth, 'w', encoding='utf-8') as f:
+					f.write('{"items": [' + ', '.join(['{"old": true}'] * 2000) + ']}\n')
+			classes.add('output_path_preexists')
 		try:
-			JSONResultsExporter().export(jpath, res)
-			ResultsArchiveWriter().export(apath, res)
+			jexp.export(jpath, res)
+			aexp.export(apath, res)
 		except Exception as e:
 			raise Violation('exception', f'export to a file path raised {type(e).__name__}: {e}', case)
 		try:
@@ -322,8 +332,11 @@ def run_case(case, ctx):
 		deep_compare(res, back_f, case, 'archive (file)')
 		if not has_surrogate:
 			cpath = ctx.fresh_path('.csv')
+			if stale:
+				with open(cpath, 'w', encoding='utf-8') as f:
+					f.write('old,row\n' * 5000)
 			try:
-				CSVResultsExporter().export(cpath, res)
+				cexp.export(cpath, res)
 			except Exception as e:
 				raise Violation('exception', f'CSV export to a file path raised {type(e).__name__}: {e}', case)
 			with open(cpath, newline='', encoding='utf-8') as f:
